@@ -81,7 +81,8 @@ func runC13(c *Ctx, r *Rec) {
 		}
 	}
 	if storage == nil || capF == nil {
-		r.undecided("bind", "collection."+stk.Obj().Name(), "", "cannot bind the storage (ListLike) and capacity (integer) fields of the stack")
+		r.skip("bind", "collection."+stk.Obj().Name(), "", "the stack is not built on a list (ListLike field) with an integer capacity field: the rules about guards, the one end and the views are bound to that design and are not evaluated")
+		shapeLints(c, r, append(fileFuncs(c, "collection", stk, cls), moduleFuncsReturning(c, "StackLike")...))
 		return
 	}
 
@@ -324,7 +325,21 @@ func runC13(c *Ctx, r *Rec) {
 				viol = append(viol, fmt.Sprintf("on {%s} the stack is empty but RemoveTop does not panic", full))
 			}
 			if sat, _ := satF(full, gt(sym("size"), k(0))); sat {
-				if p.Kind == "panic" {
+				removed := false
+				for _, cl := range p.Calls {
+					if strings.Contains(cl, "."+storage.Name()+".RemoveValue") {
+						removed = true
+					}
+				}
+				for _, sv := range p.State {
+					if strings.Contains(sv.Opaque, "."+storage.Name()+".RemoveValue(") {
+						removed = true
+					}
+				}
+				if p.Kind == "panic" && removed {
+					// a panic behind the removal is a check of its outcome (the size the rule reasons
+					// with is the one before the removal), not a refusal
+				} else if p.Kind == "panic" {
 					viol = append(viol, fmt.Sprintf("on {%s} the stack is not empty but RemoveTop panics", full))
 				} else if len(p.Rets) != 1 || !strings.Contains(p.Rets[0].Opaque, "."+storage.Name()+".RemoveValue(") {
 					viol = append(viol, fmt.Sprintf("on {%s} RemoveTop returns %v, required the value removed at index 1 of the storage", full, p.Rets))
